@@ -125,6 +125,25 @@ def seeded_variants(base):
     return out
 
 
+def refactor_variants(base):
+    """independently produced behaviour-preserving refactorings under /verif/refactors (each verified by a
+    differential test against the pristine tree): every check must stay silent on them"""
+    root = os.path.join(os.path.dirname(os.path.dirname(os.path.abspath(__file__))), 'refactors')
+    out = []
+    if not os.path.isdir(root):
+        return out
+    for area in sorted(os.listdir(root)):
+        d = os.path.join(root, area)
+        if not os.path.isdir(d):
+            continue
+        for fn in sorted(os.listdir(d)):
+            if fn.endswith('.diff'):
+                with open(os.path.join(d, fn)) as fh:
+                    src = apply_unified_diff(base, fh.read())
+                out.append(('refactor-%s-%s' % (area, fn[:-5]), src))
+    return out
+
+
 def run_variant(prop, sources):
     from .__main__ import run_property
     clear_cache()
@@ -175,6 +194,11 @@ def run_for_property(prop, ctx0, verbose=False, jobs=None):
             stale.append(vid)
         else:
             tasks.append(('silent', vid, prop, src, base_ids))
+    for vid, src in refactor_variants(base):
+        if src is None:
+            stale.append(vid)
+        else:
+            tasks.append(('silent', vid, prop, src, base_ids))
     jobs = jobs or min(16, os.cpu_count() or 1, max(1, len(tasks)))
     if jobs > 1 and len(tasks) > 3:
         import multiprocessing
@@ -214,6 +238,41 @@ def run_for_property(prop, ctx0, verbose=False, jobs=None):
     return extra
 
 
+def refactor_matrix(base, only):
+    """development aid: every refactoring x every property; prints the loud ones"""
+    from .props import PROPS
+    from .__main__ import run_property
+    import multiprocessing
+    tasks = []
+    base_ids = {}
+    for prop in sorted(PROPS):
+        c0, _ = run_property(prop, 'quick', repo=Repo(base))
+        base_ids[prop] = set(f.ident for f in c0.findings)
+    stale = []
+    for vid, src in refactor_variants(base):
+        if only and not any(o in vid for o in only):
+            continue
+        if src is None:
+            stale.append(vid)
+            continue
+        for prop in sorted(PROPS):
+            tasks.append(('silent', vid + '|' + prop, prop, src, base_ids[prop]))
+    with multiprocessing.get_context('fork').Pool(min(16, os.cpu_count() or 1)) as pool:
+        res = pool.map(_eval_variant, tasks, chunksize=1)
+    loud = {}
+    for kind, vid, status, reported, err in res:
+        v, prop = vid.split('|')
+        if status != 'none':
+            loud.setdefault(v, []).append('%s %s %s' % (prop, 'VIOLATION' if status == 'found' else 'ERROR', ('; '.join(reported) or err)[:150]))
+    vids = sorted(set(t[1].split('|')[0] for t in tasks))
+    for v in vids:
+        print(v, 'silent' if v not in loud else 'LOUD')
+        for l in loud.get(v, [])[:3]:
+            print('     ', l)
+    print('%d refactorings, %d silent, %d loud, stale %s' % (len(vids), len(vids) - len(loud), len(loud), stale))
+    return 1 if loud else 0
+
+
 def main():
     import warnings
     warnings.simplefilter('ignore')
@@ -222,6 +281,8 @@ def main():
     from .__main__ import run_property
     root = os.environ.get('SSJLINT_REPO', '/repo')
     base = Repo.load_sources(root)
+    if sys.argv[1:2] == ['--refactors']:
+        return refactor_matrix(base, sys.argv[2:])
     only = sys.argv[1:] or sorted(PROPS)
     bad = 0
     for prop in only:
